@@ -107,3 +107,6 @@ def run(ctx):
     from .. import spaces as _spc
 
     _spc.paired_defaults(ctx)  # RWG / SNC and BC / RBC are built from the same options under the same keywords
+    from . import c11 as _c11g
+
+    _c11g.geometry(ctx)  # (tools/wiring.py) normals, Jacobians, integration elements against their definitions for a general triangle of any size
